@@ -294,6 +294,52 @@ def extract_blaster_sites(nbl_src: str):
     return sites, params, sorted(set(keys)), default, appends
 
 
+def extract_fcwb_copy(smat_src: str):
+    """How `smat_fcwb()` hands out the lru-cached built-in table: ('deep' | 'shallow' | 'none', cached?)."""
+    tree = ast.parse(smat_src)
+    fns = {n.name: n for n in tree.body if isinstance(n, ast.FunctionDef)}
+    pub, priv = fns.get('smat_fcwb'), fns.get('_smat_fcwb')
+    if pub is None:
+        raise ValueError('smat_fcwb not found')
+    cached = False
+    if priv is not None:
+        for d in priv.decorator_list:
+            t = d.func if isinstance(d, ast.Call) else d
+            nm = t.id if isinstance(t, ast.Name) else (t.attr if isinstance(t, ast.Attribute) else '')
+            if nm in ('lru_cache', 'cache'):
+                cached = True
+    # names bound by `from copy import …` / `import copy`
+    deep_names, shallow_names = {'deepcopy'}, set()
+    for n in tree.body:
+        if isinstance(n, ast.ImportFrom) and n.module == 'copy':
+            for a in n.names:
+                if a.name == 'deepcopy':
+                    deep_names.add(a.asname or a.name)
+                if a.name == 'copy':
+                    shallow_names.add(a.asname or a.name)
+    rets = [n for n in ast.walk(pub) if isinstance(n, ast.Return) and n.value is not None]
+    if len(rets) != 1:
+        raise ValueError('smat_fcwb: expected exactly one return')
+    e = rets[0].value
+
+    def calls_private(x):
+        return any(isinstance(c, ast.Call) and isinstance(c.func, ast.Name) and c.func.id == '_smat_fcwb' for c in ast.walk(x))
+
+    kind = 'none'
+    if isinstance(e, ast.Call):
+        f = e.func
+        nm = f.id if isinstance(f, ast.Name) else (f.attr if isinstance(f, ast.Attribute) else '')
+        is_copy_mod = isinstance(f, ast.Attribute) and isinstance(f.value, ast.Name) and f.value.id == 'copy'
+        if (isinstance(f, ast.Name) and nm in deep_names) or (is_copy_mod and nm == 'deepcopy'):
+            kind = 'deep'
+        elif (isinstance(f, ast.Name) and nm in shallow_names) or (is_copy_mod and nm == 'copy') or nm == 'copy':
+            kind = 'shallow'
+        elif not calls_private(e):
+            kind = 'deep'      # builds a fresh table itself (e.g. re-reads the CSV): nothing shared with a cache
+            cached = False
+    return kind, cached
+
+
 def generate(repo: Path):
     repo = Path(repo)
     nbl = repo / 'navis' / 'nbl'
@@ -302,6 +348,7 @@ def generate(repo: Path):
     side_lean, side_txt, off, clip = extract_digitizer((nbl / 'smat.py').read_text())
     allowed = extract_allowed_scores((nbl / 'nblast_funcs.py').read_text())
     sites, bparams, skeys, sdefault, appends = extract_blaster_sites((nbl / 'nblast_funcs.py').read_text())
+    copy_kind, fc_cached = extract_fcwb_copy((nbl / 'smat.py').read_text())
     sf = extract_scoring_facts((nbl / 'nblast_funcs.py').read_text(), (repo / 'navis' / 'core' / 'dotprop.py').read_text())
     b = lambda x: 'true' if x else 'false'
     out = []
@@ -331,6 +378,9 @@ def generate(repo: Path):
     out.append('def blasterSites : List (String × Nat × List (String × String)) := [')
     out.append(',\n'.join(f'  ({q(f)}, {k}, [' + ', '.join(f'({q(a)}, {q(v)})' for a, v in kws) + '])' for f, k, kws in sites))
     out.append('  ]\n')
+    out.append('/-- how `smat_fcwb()` hands out the built-in table (`_smat_fcwb` is `lru_cache`d) -/')
+    out.append(f'def fcwbCopy : CopyKind := .{copy_kind}')
+    out.append(f'def fcwbCached : Bool := {b(fc_cached)}\n')
     out.append('/-- every `this.append(<neurons>[i], <self hits>[j])`: (function, neuron list, i, self-hit list, j) -/')
     out.append('def appendSites : List (String × String × String × String × String) := [')
     out.append(',\n'.join(f'  ({q(a)}, {q(b)}, {q(c)}, {q(d)}, {q(e)})' for a, b, c, d, e in appends))
@@ -357,7 +407,7 @@ def generate(repo: Path):
         'fcwb_shape': [len(t1[0]), len(t1[1])], 'fcwb_alpha_shape': [len(t2[0]), len(t2[1])],
         'fcwb_right_closed': [all(r for _, _, r in t1[0]), all(r for _, _, r in t1[1])],
         'scoring_facts': sf,
-        'blaster_sites': [[f, k, kws] for f, k, kws in sites], 'blaster_params': bparams, 'smat_kwargs_keys': skeys,
+        'blaster_sites': [[f, k, kws] for f, k, kws in sites], 'blaster_params': bparams, 'smat_kwargs_keys': skeys, 'fcwb_copy': copy_kind, 'fcwb_cached': fc_cached,
         'append_sites': [list(x) for x in appends],
     }
     return 'Smat.lean', '\n'.join(out), meta
